@@ -168,7 +168,7 @@ package fees
 //@   loop 1 invariant forall d int :: 0 <= d && d < i ==> last(bytes, d) == 0
 //@   loop 1 invariant forall d int :: 0 <= d && d < i ==> price(bytes, d) == nextFromTotal(price(f.raw, d), total(winOf(f.raw, d), last(f.raw, d), since), targetUnits[d], unitPriceChangeDenom[d], minUnitPrice[d], ite(since > 10, since / 10, 1))
 //@   loop 1 invariant forall d int, s int :: 0 <= d && d < i && 0 <= s && s < 10 ==> window.slot(winOf(bytes, d), s) == upd(winOf(f.raw, d), last(f.raw, d), since, s)
-//@   ensures len(result.raw) == 488 && be64(result.raw, 0) == currTime / 1000
+//@   ensures !isnil(result) && len(result.raw) == 488 && be64(result.raw, 0) == currTime / 1000
 //@   ensures forall i int :: 0 <= i && i < 5 ==> last(result.raw, i) == 0
 //@   ensures forall i int :: 0 <= i && i < 5 ==> price(result.raw, i) == nextFromTotal(price(f.raw, i), total(winOf(f.raw, i), last(f.raw, i), sinceS), Rules.GetWindowTargetUnits(r)[i], Rules.GetUnitPriceChangeDenominator(r)[i], Rules.GetMinUnitPrice(r)[i], kk)
 //@   ensures forall i int, s int :: 0 <= i && i < 5 && 0 <= s && s < 10 ==> window.slot(winOf(result.raw, i), s) == upd(winOf(f.raw, i), last(f.raw, i), sinceS, s)
